@@ -74,6 +74,13 @@ macro_rules! set_impl {
                     NestedRoute::new((StaticSegment("opt"), OptionalParamSegment("maybe"), StaticSegment("end")), || ()),
                     NestedRoute::new((StaticSegment("docs"), ParamSegment("page"), leptos_i18n_router::i18n_path!(L, |l: L| td_string!(l, about)), WildcardSegment("tail")), || ()),
                     NestedRoute::new((StaticSegment("files"), WildcardSegment("rest")), || ()),
+                    // a parent with a localized segment, an index child (trailing empty segment), a localized and a param child
+                    NestedRoute::new((StaticSegment("team"), leptos_i18n_router::i18n_path!(L, |l: L| td_string!(l, about))), || ()).child((
+                        NestedRoute::new(StaticSegment(""), || ()),
+                        NestedRoute::new(leptos_i18n_router::i18n_path!(L, |l: L| td_string!(l, item)), || ()),
+                        NestedRoute::new((StaticSegment("m"), ParamSegment("member")), || ()),
+                    )),
+                    NestedRoute::new(leptos_i18n_router::i18n_path!(L, |l: L| td_string!(l, item)), || ()).child(NestedRoute::new(StaticSegment(""), || ())),
                 )
             };
             match op {
